@@ -8,7 +8,8 @@ import sys
 import time
 
 VERIF = os.path.dirname(os.path.dirname(os.path.abspath(__file__)))
-REPO = "/repo"
+# VERIF_REPO is a development aid only (background validation runs against a snapshot of /repo); registered commands never set it.
+REPO = os.environ.get("VERIF_REPO", "/repo")
 BUILD = os.path.join(VERIF, ".build")
 EVID = os.path.join(VERIF, "evidence")
 REPLAY = os.path.join(VERIF, "replay")
@@ -69,8 +70,24 @@ def build_repo():
     return _cargo_build(REPO, os.path.join(BUILD, "repo"), ["--release", "--bins"], GUARD_CFG, "repo-build.log")
 
 
+def crate_dir(name, fresh=False):
+    """The harness crates have path dependencies on /repo; for a VERIF_REPO override build from a copy with rewritten paths."""
+    d = os.path.join(VERIF, name)
+    if REPO == "/repo":
+        return d
+    import shutil
+    c = os.path.join(BUILD, "src_" + name)
+    if not fresh and os.path.exists(os.path.join(c, "Cargo.lock")):
+        return c
+    shutil.rmtree(c, ignore_errors=True)
+    shutil.copytree(d, c, ignore=shutil.ignore_patterns("target"))
+    t = os.path.join(c, "Cargo.toml")
+    open(t, "w").write(open(t).read().replace('path = "/repo', 'path = "' + REPO))
+    return c
+
+
 def build_kernels(dev=False):
-    d = os.path.join(VERIF, "kernels")
+    d = crate_dir("kernels", fresh=True)
     _ensure_lock(d)
     t = _cargo_build(d, os.path.join(BUILD, "kernels"), ["--release"], None, "kernels-build.log")
     if dev:
@@ -79,7 +96,7 @@ def build_kernels(dev=False):
 
 
 def build_harness():
-    d = os.path.join(VERIF, "harness")
+    d = crate_dir("harness", fresh=True)
     _ensure_lock(d)
     return _cargo_build(d, os.path.join(BUILD, "harness"), ["--release"], GUARD_CFG, "harness-build.log")
 
